@@ -5,16 +5,18 @@
 # and passes without it; then runs ./check for the property (and any further ones) against the
 # patched worktree. The worktree is left clean.
 set -u
+. "$(cd "$(dirname "$0")" && pwd)/scratch_cache.sh"
 prop=$1; ch=$2; tier=${3:-quick}; shift; shift; shift 2>/dev/null
 more="$*"
 wt=/tmp/seed-$prop
 out=$wt/${SEED_OUT:-OUT}/$ch
 here=$(cd "$(dirname "$0")/.." && pwd)
 export GOPROXY=off GOSUMDB=off GOTOOLCHAIN=local
+trim_scratch_cache
 cd "$wt" || exit 2
 clean() { git checkout -q -- . ; git clean -fdq -e "OUT*" >/dev/null 2>&1; }
 clean
-cmds=$(grep -E '^\s*([A-Z_]+=\S+\s+)*(cp |mkdir |go test|go run|\(cd |cd )' "$out/RUN.txt" | sed 's/#.*$//' | grep -v 'git apply')
+cmds=$(grep -E '^\s*(export [^;]*; *)?([A-Z_]+=\S+\s+)*(cp |mkdir |go test|go run|go build|\(cd |cd |\./)' "$out/RUN.txt" | sed 's/#.*$//' | grep -v 'git apply')
 rundemo() { ( cd "$wt"; while IFS= read -r l; do [ -z "$l" ] && continue; eval "$l" || return 1; done <<< "$cmds" ) >"$out/.demo.$1.log" 2>&1; }
 rundemo clean; demo_clean=$?
 clean
